@@ -5,6 +5,7 @@ from hypothesis import strategies as st
 
 from ..core import Clause, Violation, guard
 from ..harness import make_problem, dispose, seed_all
+from .. import oracles as O
 
 PROPERTY = "C14"
 LEVEL = "exploration"
@@ -45,7 +46,11 @@ def batch_history(draw):
     s["fail_call"] = draw(st.one_of(st.none(), st.none(), st.integers(0, 12)))
     # the caller keeps only the designs of the current batch (earlier ones are dropped and garbage-collected, as the
     # rejected offspring of an NSGA-II generation are), and / or edits a parameter tolerance between two batches
-    s["forget"] = draw(st.sampled_from([False, False, True]))
+    # a later batch may hand in designs of earlier batches again (a caller that re-evaluates its whole population):
+    # they are processed again on request, and must still carry exactly one extra objective afterwards
+    s["resubmit"] = [draw(st.lists(st.integers(0, 15), max_size=2)) if b and draw(st.integers(0, 2)) == 0 else []
+                     for b in range(nb)]
+    s["forget"] = draw(st.sampled_from([False, False, True])) and not any(s["resubmit"])
     s["retol"] = draw(st.one_of(st.none(), st.none(), st.tuples(
         st.integers(1, 3), st.integers(0, s["n"] - 1), st.sampled_from([0.5, 0.125, 0.01, 2.0]))))
     return s
@@ -75,6 +80,17 @@ def _problem(s, log, fail_call=None):
     return make_problem(ps, cs, ev)
 
 
+def _work_lists_empty(clause, alg, bi):
+    """the property's state anchor: the evaluator's work lists (designs pending post-processing) must not outlive a
+    batch - otherwise every later batch post-processes all earlier designs again.  Checked where the lists exist."""
+    ev = getattr(alg, "evaluator", None)
+    for name in ("individuals", "to_evaluate"):
+        lst = getattr(ev, name, None)
+        if isinstance(lst, list) and lst:
+            raise Violation(clause, "work-list-outlives-batch", "after batch %d the evaluator still holds %d designs in "
+                            "`%s`: they are post-processed again with every later batch" % (bi, len(lst), name))
+
+
 def check_worst_case(case):
     from artap.algorithm import EvaluatorType
     from artap.algorithm_genetic import GeneticAlgorithm
@@ -96,19 +112,28 @@ def check_worst_case(case):
                 tol[retol[1]] = retol[2]
             before = len(log)
             inds = [Individual(list(v)) for v in batch]
+            again = []
+            for r in (s.get("resubmit") or [[]] * (bi + 1))[bi]:
+                if seen and all(seen[r % len(seen)][0] is not a for a in again):
+                    again.append(seen[r % len(seen)][0])
             with guard("worst-case"):
-                alg.evaluate(inds)
+                alg.evaluate(inds + again)
+            for rec in seen:
+                if any(rec[0] is a for a in again):
+                    # processed again on request: new neighbour objects, built with the tolerances of now
+                    rec[1], rec[2], rec[3] = [id(c) for c in rec[0].children], None, list(tol)
+            _work_lists_empty("worst-case", alg, bi)
             calls = len(log) - before
-            exp_calls = len(batch) * (1 + 2 * n)
+            exp_calls = len(batch) * (1 + 2 * n) + len(again) * 2 * n
             if calls != exp_calls:
-                raise Violation("worst-case", "call-count:batch%s" % ("1" if bi == 0 else "N"),
-                                "batch %d of %d designs (n=%d) made %d objective calls, expected %d" % (
-                                    bi, len(batch), n, calls, exp_calls))
+                raise Violation("worst-case", "call-count:batch%s%s" % ("1" if bi == 0 else "N", ":resubmitted" if again else ""),
+                                "batch %d of %d new and %d resubmitted designs (n=%d) made %d objective calls, expected %d" % (
+                                    bi, len(batch), len(again), n, calls, exp_calls))
             for ind in inds:
                 seen.append([ind, [id(c) for c in ind.children], None, list(tol)])
             for rec in seen:
                 ind = rec[0]
-                age = "new" if any(ind is i for i in inds) else "earlier"
+                age = "new" if any(ind is i for i in inds) else "resubmitted" if any(ind is a for a in again) else "earlier"
                 if len(ind.costs) != m + 1 or len(ind.costs_signed) != m + 2:
                     raise Violation("worst-case", "cost-length:%s" % age,
                                     "after batch %d a design of batch %s has costs %r / signed %r for m=%d" % (
@@ -139,6 +164,16 @@ def check_worst_case(case):
                 for c in ch:
                     if list(c.costs) != f(c.vector):
                         raise Violation("worst-case", "child-costs", "child %r costs %r" % (c.vector, c.costs))
+                # signed costs: the user's objectives with their signs, then the (minimised) extra objective, then the marker
+                sg = [-1.0 if c_ == "maximize" else 1.0 for c_ in s["crit"]]
+                for j in range(m):
+                    if not O.round_relation_ok(float(ind.costs_signed[j]), float(ind.costs[j]), sg[j]):
+                        raise Violation("worst-case", "signed-costs-order", "costs %r criteria %r -> signed costs %r" % (
+                            ind.costs, s["crit"], ind.costs_signed))
+                if ind.costs_signed[-2] != ind.costs[-1] and not O.round_relation_ok(
+                        float(ind.costs_signed[-2]), float(ind.costs[-1]), 1.0):
+                    raise Violation("worst-case", "signed-costs-order", "extra objective %r is not the last signed cost "
+                                    "before the marker: %r" % (ind.costs[-1], ind.costs_signed))
                 if m == 1:
                     exp = sum(abs(fx[0] - f(c.vector)[0]) for c in ch)
                     got = ind.costs[-1]
@@ -159,7 +194,7 @@ def check_worst_case(case):
     finally:
         dispose(prob)
     nb = len(s["batches"])
-    return {"nt": nb >= 2, "classes": ["batches%d" % nb, "m%d" % m, "n%d" % n] + (["forget"] if s.get("forget") else [])
+    return {"nt": nb >= 2, "classes": ["batches%d" % nb, "m%d" % m, "n%d" % n] + (["forget"] if s.get("forget") else []) + (["resubmit"] if any(s.get("resubmit") or []) else [])
             + (["retol"] if retol and retol[0] < nb else [])}
 
 
@@ -180,13 +215,18 @@ def check_gradient(case):
         for bi, batch in enumerate(s["batches"]):
             before = len(log)
             inds = [Individual(list(v)) for v in batch]
+            again = []
+            for r in (s.get("resubmit") or [[]] * (bi + 1))[bi]:
+                if seen and all(seen[r % len(seen)] is not a for a in again):
+                    again.append(seen[r % len(seen)])
             with guard("gradient"):
-                alg.evaluate(inds)
+                alg.evaluate(inds + again)
+            _work_lists_empty("gradient", alg, bi)
             calls = len(log) - before
-            if calls != len(batch) * (n + 1):
-                raise Violation("gradient", "call-count:batch%s" % ("1" if bi == 0 else "N"),
-                                "batch %d of %d designs (n=%d) made %d calls, expected %d" % (
-                                    bi, len(batch), n, calls, len(batch) * (n + 1)))
+            if calls != len(batch) * (n + 1) + len(again) * n:
+                raise Violation("gradient", "call-count:batch%s%s" % ("1" if bi == 0 else "N", ":resubmitted" if again else ""),
+                                "batch %d of %d new and %d resubmitted designs (n=%d) made %d calls, expected %d" % (
+                                    bi, len(batch), len(again), n, calls, len(batch) * (n + 1) + len(again) * n))
             seen.extend(inds)
             for ind in seen:
                 g = ind.features.get("gradient")
